@@ -168,6 +168,38 @@ def e2e_descriptions(chk, tier, rnd):
     chk.nontrivial.update("e:" + s[0] + s[1] for s in src)
 
 
+def twin_file_descriptions(chk):
+    """descriptions and annotations written at the same offsets of different included files keep their own text"""
+    import c08
+    from common import b64
+    for nm, flat_text, main_text, files in c08.twin_projects():
+        ff = {"main.jst": b64(main_text)}
+        ff.update({k: b64(v) for k, v in files.items()})
+        o = harness("run", [{"id": "tw", "files": ff, "root": "main.jst"}])["tw"]
+        chk.evaluations += 1
+        chk.traces += 1
+        chk.nontrivial.add("twin" + nm)
+        bad = None
+        if o["outcome"] != "ok":
+            bad = "project of template files not accepted: %s" % rel.describe(o)
+        else:
+            cat = json.loads(o["json"])
+            words = {"a": "cats", "b": "dogs"} if nm == "twins" else {"a": "hens", "b": "pigs", "c": "owls"}
+            for n, w in words.items():
+                got = {"method description": cat["interactions"]["http GET /tw" + n].get("description"),
+                       "method annotation": cat["interactions"]["http GET /tw" + n].get("annotation"),
+                       "rpc description": cat["interactions"]["json-rpc-2.0 m%s /rtw%s" % (n, n)].get("description"),
+                       "tag description": cat["tags"]["@gw" + n].get("description")}
+                want = {"method description": "text of " + w, "method annotation": "note " + n, "rpc description": "rpc text " + w,
+                        "tag description": "tag text " + w}
+                for k in want:
+                    if got[k] != want[k]:
+                        bad = "%s in res/%s.jst is %r, written there: %r" % (k, n, got[k], want[k])
+        if bad:
+            sig = {"level": "end-to-end", "what": "text of another file", "cls": "description"}
+            chk.violation(bad + " | files: " + json.dumps(files)[:600], {"kind": "twin_files", "main": main_text, "files": files, "observed": o, "signature": sig}, sig)
+
+
 def e2e_annotations(chk, tier, rnd):
     words = ["a", "b c", "x  y", "tab\there", " lead", "trail ", "q", "*", "**", "x*", "x **", "* x *", "a*b", "a/b", "/ x"]
     texts = [" ".join(t) for n in (1, 2) for t in itertools.product(words, repeat=n)]
@@ -217,6 +249,7 @@ def main(tier):
     table_annotation(chk, tier)
     e2e_descriptions(chk, tier, rnd)
     e2e_annotations(chk, tier, rnd)
+    twin_file_descriptions(chk)
     chk.sample({"description_alphabet": "ab sp TAB CR LF #", "hosts": list(HOSTS), "line_pool": SAFE_LINES})
     chk.rule = ("function tables exhaustive over the stated alphabets and bounds (see coverage.*_table); end to end: line "
                 "sequences of length 1..3 over the pool under 4 hosts in both spellings; annotations in both spellings")
